@@ -85,7 +85,15 @@ def run_traced(mod, path, prog, k, sample_rate=None, with_flight=True, rng_seed=
             if fl:
                 fl.stop()
         gc.collect()
-        residue = list(tracer.traces.keys())
+        # per-call state = any frame object still referenced from the tracer's own containers
+        import types as _types
+
+        residue = []
+        for attr, val in vars(tracer).items():
+            if isinstance(val, (dict, set, list, tuple, frozenset)):
+                residue += [x for x in (val.keys() if isinstance(val, dict) else val) if isinstance(x, _types.FrameType)]
+                if isinstance(val, dict):
+                    residue += [x for x in val.values() if isinstance(x, _types.FrameType)]
     return (fl.done if fl else None), logger.traces, residue, results, logger.flushes, (fl.live if fl else {})
 
 
@@ -204,7 +212,7 @@ def align(res, G, L, residue, live, prog, k):
         if len(ended_at_yield) >= unexplained:
             bad.append(("generator-ended-by-exception-at-suspended-yield", f"{unexplained} finished frame(s) still held in tracer.traces"))
         else:
-            bad.append(("residue-in-tracer", f"{unexplained} finished frame(s) still held in tracer.traces at quiescence"))
+            bad.append(("residue-in-tracer", f"{unexplained} finished frame(s) still referenced by the tracer at quiescence"))
     return bad
 
 
